@@ -321,6 +321,20 @@ fn canon<const B: usize, const L: usize>(p: &[&str]) -> String {
             format!("{} {} {} {}", l(&(!x).into_inner()), l(&(x ^ y).into_inner()), l(&x.rotate_left(small).into_inner()),
                     l(&(x << small).into_inner()))
         }
+        "ref_ops" => {
+            // the by-REFERENCE operator overloads (own impl blocks: `Not for &Uint`, `Neg for &Uint`, `&a op &b`, `a op= &b`)
+            let (ra, rc) = (&a, &c);
+            let mut e = a;
+            e += rc;
+            let mut f = a;
+            f -= rc;
+            let mut g = a;
+            g *= rc;
+            let mut hh = a;
+            hh ^= rc;
+            format!("{} {} {} {} {} {} {} {} {} {}", l(&!ra), l(&-ra), l(&(ra + rc)), l(&(ra - rc)), l(&(ra * rc)), l(&(ra | rc)),
+                    l(&e), l(&f), l(&g), l(&hh))
+        }
         "sum_product" => {
             let v = [a, c, m];
             format!("{} {}", l(&v.iter().copied().sum::<U<B, L>>()), l(&v.iter().copied().product::<U<B, L>>()))
